@@ -101,6 +101,7 @@ type memEnv struct {
 
 func memSetup(recv string, sv reflect.Value) *memEnv {
 	m := &memEnv{e: env.NewEnv()}
+	m.e.Define("id", func(a interface{}) interface{} { return a })
 	switch recv {
 	case "ptr", "ptrlist":
 		p := reflect.New(tS)
@@ -307,6 +308,9 @@ func memOracle(c MemCase, o *h.Obs) *h.Fail {
 		o.Class("members:call:%s:%s:%s", recvKind, c.Recv, p.out)
 		o.Class("members:method:" + c.Method)
 		o.Class("members:callshape:%s:%s", p.shape, p.out)
+		if c.HasSpread && c.Spread.Hop != "" {
+			o.Class("members:spread-hop:%s:%s:%s", c.Spread.Hop, p.shape, p.out)
+		}
 		for _, cell := range dedupe(append([]string{}, p.cells...)) {
 			o.Class("conv:" + cell)
 		}
